@@ -83,6 +83,10 @@ pub fn run_item(_tier: &str, idx: usize, only: Option<&Value>) -> MResult<ItemRe
                     ("nested-trailing", Op::new("resolve").root(ROOT_IN).path("sd/ll")),
                     ("nested-trailing", Op::new("resolve").root(ROOT_IN).path("td/x")),
                     ("nested-intermediate", Op::new("open_subpath").root(ROOT_IN).path("td/y").flags(O_RDONLY)),
+                    // a link followed by nothing but slashes is still the trailing component for the kernel
+                    ("trailing-slash", Op::new("resolve").root(ROOT_IN).path("sd/dl/")),
+                    ("trailing-slash", Op::new("open_subpath").root(ROOT_IN).path("sd/dl//").flags(O_RDONLY | O_DIRECTORY)),
+                    ("trailing-slash", Op::new("resolve").root(ROOT_IN).path("sd/dl/.")),
                     ("not-followed", Op::new("resolve_nofollow").root(ROOT_IN).path("sd/lnk")),
                     ("not-followed", Op::new("readlink").root(ROOT_IN).path("sd/dl")),
                 ];
@@ -119,7 +123,7 @@ pub fn run_item(_tier: &str, idx: usize, only: Option<&Value>) -> MResult<ItemRe
 pub fn report(_tier: &str) -> Report {
     Report {
         level: "exploration",
-        rule: format!("all {} combinations: sysctl {{1,0}} x caller {{root, root without any capability, uid 1000, uid 1001, root that switches to euid 1000 after its first symlink lookup}} x directory mode {:?} x directory owner {{0,1000,1001}} x link owner {{0,1000,1001}} x {{trailing link (resolve, open), intermediate link (resolve, open), link reached as the last component of another link's body, link not followed (resolve_nofollow, readlink)}}; the emulated backend must answer EACCES exactly where the kernel backend (same user, same tree) does; fresh worker processes per sysctl value; non-trivial = cases in a sticky world-writable directory or refused by the kernel; plus 2 x {} cases with sysctl 1 for callers {{uid 1000, root without capabilities}} on a subset=pid /proc (sysctl unreadable): any error is accepted there, following a link the kernel refuses is not", 2 * 5 * DIR_MODES.len() * 9 * 9, DIR_MODES.iter().map(|m| format!("{:o}", m)).collect::<Vec<_>>(), DIR_MODES.len() * 9 * 9),
+        rule: format!("all {} combinations: sysctl {{1,0}} x caller {{root, root without any capability, uid 1000, uid 1001, root that switches to euid 1000 after its first symlink lookup}} x directory mode {:?} x directory owner {{0,1000,1001}} x link owner {{0,1000,1001}} x {{trailing link (resolve, open), intermediate link (resolve, open), link reached as the last component of another link's body, link not followed (resolve_nofollow, readlink)}}; the emulated backend must answer EACCES exactly where the kernel backend (same user, same tree) does; fresh worker processes per sysctl value; non-trivial = cases in a sticky world-writable directory or refused by the kernel; plus 2 x {} cases with sysctl 1 for callers {{uid 1000, root without capabilities}} on a subset=pid /proc (sysctl unreadable): any error is accepted there, following a link the kernel refuses is not", 2 * 5 * DIR_MODES.len() * 9 * 12, DIR_MODES.iter().map(|m| format!("{:o}", m)).collect::<Vec<_>>(), DIR_MODES.len() * 9 * 12),
         assumptions: vec!["fs.protected_symlinks is writable (root, global sysctl); the check restores the original value on exit".into(), "the kernel backend (openat2) is the reference for the kernel's rule".into()],
         exhaustive: true,
         extra: json!({}),
